@@ -244,6 +244,9 @@ func (w *World) enabled() []Event {
 		if op.Applied {
 			okEv = Event{Name: "ret:" + op.ID, tgt: op.Inst, run: func() { w.answer(op) }}
 		}
+		if op.NotBefore == math.MaxInt64 {
+			continue // hung for ever: nothing more is offered for it
+		}
 		if op.NotBefore <= now {
 			def = append(def, okEv)
 		} else if w.devAllowed(op.Inst) {
